@@ -58,6 +58,21 @@ func runSolver(s solverSpec, file string, timeout int) (verdict, out string, sec
 
 // solve discharges one obligation with the solver portfolio.
 func solve(o *Obligation, dir string, timeout int, all bool, wantModel bool) *SolveResult {
+	// first a reduced query (hypotheses within 2 steps of the goal): only an
+	// "unsat" answer is used; anything else falls back to the full query
+	if o.raw == "" && o.Kind != "cover" && o.fv != nil && !all {
+		q := o.queryLevel(2)
+		file := filepath.Join(dir, sanitizeFile(o.ID)+".red.smt2")
+		os.WriteFile(file, []byte(q), 0o644)
+		t := timeout / 6
+		if t < 5 {
+			t = 5
+		}
+		v, _, secs := runSolver(solvers[0], file, t)
+		if v == "unsat" {
+			return &SolveResult{File: file, Verdict: "unsat", Solver: solvers[0].name + " (reduced hypotheses)", Seconds: secs, Total: secs, Tried: []string{fmt.Sprintf("%s:reduced:%s:%.2fs", solvers[0].name, v, secs)}}
+		}
+	}
 	q := o.query()
 	if wantModel {
 		q += "(get-model)\n"
